@@ -64,7 +64,7 @@ class Gen:
        fns: scalar functions                                cases: CASE inside expressions (not only top level)
        isnull_sel: IS [NOT] NULL outside WHERE              negpath: unary minus on a nested path
        neq: the != operator                                 ors: OR                     strs: string comparisons"""
-    DEFAULT = dict(nulls=True, nots=True, likes=False, fns=True, cases=True, isnull_sel=True, negpath=True, neq=True, ors=True, strs=True, paths=True, fn_in_case=True, negs=True, eqcols=True, plus=True, explicit_null=True, flat=False)
+    DEFAULT = dict(nulls=True, nots=True, likes=False, fns=True, cases=True, isnull_sel=True, negpath=True, neq=True, ors=True, strs=True, paths=True, fn_in_case=True, negs=True, eqcols=True, plus=True, explicit_null=True, flat=False, mixedkinds=False, ordonly=False)
 
     def __init__(self, rng, **f):
         self.r = rng
@@ -171,6 +171,7 @@ class Gen:
         return row
 
     def cmpops(self):
+        if self.f["ordonly"]: return [">", ">=", "<", "<="]
         ops = [">", ">=", "<", "<=", "="]
         return ops + ["!="] if self.f["neq"] else ops
 
@@ -229,6 +230,8 @@ class Gen:
             return "__missing__" if nulls else 2
         for c in NUMCOLS:
             v = numv()
+            if self.f["mixedkinds"] and r.random() < 0.35:
+                v = r.choice(["25", "5", "0", "2.5", True, False, "abc"])     # a numeric-looking string / boolean where a number is compared
             if v != "__missing__": row[c] = v
         k = r.random()
         if k < 0.7 or not nulls: row["s"] = r.choice(["ab", "a", "xz", "AB", "", "abz", "b"])
